@@ -147,9 +147,13 @@ def sweep (ep : Endpoint) (now : Int) : Endpoint :=
 
 /-! ### sender side -/
 
-/-- offset `createSendingMessage` seeks to: NUM·size, plus the buffer length for Block1 ("skip the already sent bytes") -/
-def sendOff (bt : BT) (szx num nb : Nat) : Nat :=
-  num * sizeN szx + (if bt == .b1 && block1SkipsSent then nb else 0)
+/-- offset `createSendingMessage` seeks to: NUM·size, plus — when the caller asks for it (`skip`) — the buffer length for
+    Block1 ("skip the already sent bytes") -/
+def sendOffWith (skip : Bool) (bt : BT) (szx num nb : Nat) : Nat :=
+  num * sizeN szx + (if bt == .b1 && skip then nb else 0)
+
+/-- … as `continueSendingMessage` calls it -/
+def sendOff (bt : BT) (szx num nb : Nat) : Nat := sendOffWith block1SkipsSent bt szx num nb
 
 /-- the part of `createSendingMessage` after the offset is known: read up to `nb` bytes at `off`, derive `more` from
     the real end of the body, recompute NUM from the offset -/
@@ -163,14 +167,23 @@ def createSendingAt (sm : Msg) (bt : BT) (szx off nb : Nat) : Option (Msg × Boo
   | .error _ => none
   | .ok v => some ({ (sm.setSize bt sm.body.length).setBlock bt v with body := pay }, more)
 
-/-- `createSendingMessage(sendingMessage, maxSZX, maxMessageSize, block)`; `none` = an error is returned. -/
-def createSending (sm : Msg) (maxSZX maxSize block : Nat) : Option (Msg × Bool) :=
+/-- `createSendingMessage(sendingMessage, maxSZX, maxMessageSize, block[, skipSent])`; `none` = an error is returned. -/
+def createSendingWith (skip : Bool) (sm : Msg) (maxSZX maxSize block : Nat) : Option (Msg × Bool) :=
   match decodeBlock block with
   | .error _ => none
   | .ok (szx0, num, _) =>
     let szx := getSzx szx0 maxSZX
     let nb := bufLen szx maxSize
-    createSendingAt sm (sendBT sm.code) szx (sendOff (sendBT sm.code) szx num nb) nb
+    createSendingAt sm (sendBT sm.code) szx (sendOffWith skip (sendBT sm.code) szx num nb) nb
+
+/-- … as `continueSendingMessage` calls it: `block` is the block that was acknowledged / asked for -/
+def createSending (sm : Msg) (maxSZX maxSize block : Nat) : Option (Msg × Bool) :=
+  createSendingWith block1SkipsSent sm maxSZX maxSize block
+
+/-- … as `startSendingMessage` calls it: the first block of a response or of a one-way write.  On the pinned tree the
+    same addend is applied (O1: a one-way POST/PUT starts with block 1); `startSkipsSent` is regenerated. -/
+def createSendingFirst (sm : Msg) (maxSZX maxSize block : Nat) : Option (Msg × Bool) :=
+  createSendingWith startSkipsSent sm maxSZX maxSize block
 
 /-- `Do` up to the call of `do(req)` on the sending slot of the request's token: the slot afterwards and the message
     handed to `do` (`none`: `Do` returned an error; its deferred `Delete` is already applied). -/
@@ -203,7 +216,7 @@ def startSendingS (cfg : Cfg) (snd : Option Entry) (now : Int) (w : Option Msg) 
   | none => .ok (snd, none)          -- BodySize of the untouched response is 0
   | some m =>
     if fits startDirectIsLe m.body.length (sizeN maxSZX) then .ok (snd, some m) else
-    match createSending m maxSZX cfg.maxSize block with
+    match createSendingFirst m maxSZX cfg.maxSize block with
     | none => .error ()
     | some (sm, _) =>
       let expire := match sm.deadline with | some d => d | none => now + cfg.expiration
@@ -276,10 +289,14 @@ def entityIncomplete (tok : Nat) : Msg := { code := codeRequestEntityIncomplete,
 /-- request for the next Block2 block, built from the request that was sent -/
 def nextRequest (sent : Msg) : Msg := { sent with block1 := none, size1 := none, body := [], deadline := none }
 
-/-- the cached message after a block was looked at: ETag handling, then the block's payload is appended iff the
-    block starts exactly where the held bytes end (`copyToPayloadFromOffset` at `off == payloadSize`) -/
+/-- the cached message after a block was looked at: ETag handling, restart on the first block, then the block's payload
+    is appended iff the block starts exactly where the held bytes end (`copyToPayloadFromOffset` at `off == payloadSize`) -/
+def blockBase (r c0 : Msg) (off : Nat) : Msg :=
+  -- (F10e) a block at offset 0 (re)starts the transfer: nothing of an abandoned one is kept, options and code are the block's
+  if block0Restarts = true ∧ off = 0 then { r with body := [], tok := c0.tok, deadline := c0.deadline } else applyEtag r c0
+
 def absorb (r c0 : Msg) (off : Nat) : Msg × Bool :=
-  let c := applyEtag r c0
+  let c := blockBase r c0 off
   if off = c.body.length then ({ c with body := c.body ++ r.body }, true) else (c, false)
 
 /-- the answer that asks for / acknowledges a block: 2.31 Continue for Block1, the sent request again for Block2
